@@ -84,8 +84,26 @@ def _r04b(rep):
     rep.instance("R04b", CELLS, "Supercell._create_supercell", core.src(n_def[0]) if n_def else "<N vanished>", bool(n_def) and core.src(n_def[0].value) == "num_satom // num_uatom",
                  "N is not the ratio of supercell to unit-cell atom counts", line=fn.lineno)
     pf = core.find_def(CELLS, "Primitive._create_primitive_cell")
-    raises = [n for n in ast.walk(pf) if isinstance(n, ast.If) and "supercell.symbols != mapped_symbols" in core.src(n.test) and any(isinstance(b, ast.Raise) for b in ast.walk(n))]
-    rep.instance("R04b", CELLS, "Primitive._create_primitive_cell", "symbol mapping mismatch raises", bool(raises), "a primitive cell whose atoms do not map onto the same species is no longer rejected", line=pf.lineno)
+    # the rejection compares a per-atom species label of the supercell with the same label gathered through the
+    # mapping table; the label must be the full symbol (index-decorated symbols such as Cr1/Cr2 share one atomic number)
+    defs = {core.src(s.targets[0]): s.value for s in ast.walk(pf) if isinstance(s, ast.Assign) and len(s.targets) == 1 and isinstance(s.targets[0], ast.Name)}
+    verdict, shown = None, "<no rejecting comparison through mapping_table>"
+    for n in ast.walk(pf):
+        if not (isinstance(n, ast.If) and any(isinstance(b, ast.Raise) for st in n.body for b in ast.walk(st))):
+            continue
+        exprs = [n.test] + [defs[x.id] for x in ast.walk(n.test) if isinstance(x, ast.Name) and x.id in defs]
+        names = {x.id for e in exprs for x in ast.walk(e) if isinstance(x, ast.Name)}
+        attrs = {x.attr for e in exprs for x in ast.walk(e) if isinstance(x, ast.Attribute) and core.src(x.value) == "supercell"}
+        if "mapping_table" not in names or not attrs:
+            continue
+        shown = core.norm(core.src(n.test), 70) + f" [supercell.{'/'.join(sorted(attrs))} through mapping_table]"
+        verdict = "symbols" in attrs
+        if verdict:
+            break
+    if verdict is None:
+        rep.instance("R04b", CELLS, "Primitive._create_primitive_cell", shown, False, "a primitive cell whose atoms do not map onto the same species is no longer rejected", line=pf.lineno)
+    else:
+        rep.instance("R04b", CELLS, "Primitive._create_primitive_cell", shown, verdict, "the species check compares atomic numbers / masses only: atoms with index-decorated symbols (e.g. Cr1, Cr2) that map onto each other are no longer rejected", line=pf.lineno)
     mf = core.find_def(CELLS, "Primitive._map_atomic_indices")
     asserts = [n for n in ast.walk(mf) if isinstance(n, ast.Assert) and core.src(n.test) == "len(indices) == 1"]
     rep.instance("R04b", CELLS, "Primitive._map_atomic_indices", "assert len(indices) == 1", bool(asserts), "a supercell atom matching zero or several primitive atoms is no longer rejected", line=mf.lineno)
@@ -112,5 +130,8 @@ def selftest():
     b("primitive mapping without transpose", CELLS, "frac_pos = np.dot(s_pos_orig, np.linalg.inv(self._primitive_matrix).T)", "frac_pos = np.dot(s_pos_orig, np.linalg.inv(self._primitive_matrix))", "R04a", "_map_atomic_indices")
     b("cartesian differences with transposed cell", CELLS, "            cart_diffs = np.dot(frac_diffs, self.cell)", "            cart_diffs = np.dot(frac_diffs, self.cell.T)", "R04a", "_map_atomic_indices")
     b("maps stored although the atom count is wrong", CELLS, "            print(mapping_table)\n            super().__init__()", "            print(mapping_table)\n            super().__init__()\n            self._u2s_map = np.arange(num_uatom)", "R04b", "determinant")
+    b("species check on atomic numbers only", CELLS, "        if supercell.symbols != mapped_symbols:", "        if (supercell.numbers != supercell.numbers[mapping_table]).any():", "R04b", "_create_primitive_cell")
+    b("species check dropped", CELLS, "        if supercell.symbols != mapped_symbols:", "        if False:", "R04b", "_create_primitive_cell")
+    n("species check written with any()", CELLS, "        if supercell.symbols != mapped_symbols:", "        if any(a != b for a, b in zip(supercell.symbols, mapped_symbols)):")
     n("dot written as matmul", CELLS, "            cart_diffs = np.dot(frac_diffs, self.cell)", "            cart_diffs = frac_diffs @ self.cell")
     return V
